@@ -26,6 +26,9 @@ RULE = (
     "checkers, same oracle. non-trivial = case containing >=1 widened feature; distinct = "
     "canon(schema, value)"
 )
+RULE += (
+    " Widening also swaps patterns / patternProperties keys for regexes using look-behind, look-ahead, named groups, back-references, lazy quantifiers and inline flags (all valid for Python's re)."
+)
 ASSUMPTIONS = [
     "patterns come from a pool of valid Python regexes without nested quantifiers",
     "nesting depth <= 40 keeps the harness and the library far from the 1000-frame interpreter limit",
@@ -46,6 +49,12 @@ ODD_STRINGS = ["\x00", "a\x00b", "\ud800", "\udc00x", "\U0001f600", "é", "‮a
                "0000-00-00T00:00:00Z", "9999-99-99T99:99:99Z", "2020-01-01T00:00:00+99:99", "2020-1-1T0:0:0Z",
                "00000000-0000-0000-0000-000000000000", "{12345678-1234-5678-1234-567812345678}",
                "urn:uuid:12345678-1234-5678-1234-567812345678", "1234567812345678123456781234567g"]
+# every construct of Python's `re` syntax the small pattern pool of the grammar never uses (all valid, none with
+# nested quantifiers): look-behind/-ahead, named groups and back-references, lazy quantifiers, inline flags, escapes
+RICH_PATTERNS = ["(?<=a)b", "(?<!a)b", "(?<=^)a", "a(?=b)", "a(?!b)", "(?P<n>a)(?P=n)", "(a)\\1", "a*?b", "(?i)ABC",
+                 "\\d+\\s*\\w", "[\\]\\[]", "\\Aab\\Z", "(?:a|b){1,2}", "\\bfoo\\b", "\u00e9", "[^\\W\\d_]",
+                 "^\\$ref$", "\\.", "(?s).", "(?x) a b ", "(?#comment)a", "[a-z&&[^b]]", "\\N{BULLET}", "(?a:\\w)",
+                 "a{2}", "a{,2}", "{", "a{", "(?<=ab)c|(?<!x)y", "\\t\\n", "\t"]
 DUNDER = ["__dict__", "__weakref__", "__class__", "__module__", "__slots__", "__init__", "__new__",
           "__doc__", "__getitem__", "__eq__", "__hash__", "_dict", "properties", "default", "self",
           "\x00", "\ud800", "a\U0001f600", "‮", "", " ", "é"]
@@ -108,6 +117,15 @@ def widen(draw, schema, flags, depth=0):
     if "format" in s and draw(st.booleans()):
         s["format"] = draw(st.sampled_from(["uuid", "date-time"]))
         flags.add("builtin-format")
+    if "pattern" in s and draw(st.integers(0, 1)) == 0:
+        s["pattern"] = draw(st.sampled_from(RICH_PATTERNS))
+        flags.add("rich-regex")
+    if isinstance(s.get("patternProperties"), dict) and s["patternProperties"] and draw(st.integers(0, 1)) == 0:
+        old = draw(st.sampled_from(sorted(s["patternProperties"])))
+        new = draw(st.sampled_from(RICH_PATTERNS))
+        if new not in s["patternProperties"]:
+            s["patternProperties"][new] = s["patternProperties"].pop(old)
+            flags.add("rich-regex")
     if "properties" in s and draw(st.integers(0, 2)) == 0:
         name = draw(st.sampled_from(DUNDER))
         s["properties"][name] = draw(st.sampled_from([{}, {"type": "integer"}, {"type": "number"}, True]))
@@ -164,7 +182,8 @@ def cases(draw):
                 schema = {kind: schema}
         flags.add("deep-schema")
     values = base_values + [draw(wide_values()) for _ in range(draw(st.integers(2, 4)))]
-    return {"schema": schema, "values": values, "flags": sorted(flags)}
+    return {"schema": schema, "values": values, "flags": sorted(flags),
+            "pipeline": draw(st.sampled_from(observe.PIPELINES))}
 
 
 class Hang(Exception):
@@ -188,7 +207,7 @@ def with_limit(seconds, fn):
 def evaluate(case, stats):
     schema, values = case["schema"], case["values"]
     fails = []
-    parsed = observe.safe_parse(schema)
+    parsed = observe.safe_parse(schema, case.get("pipeline"))
     wide = bool(case.get("flags"))
     if parsed[0] == "recursion":
         stats.inconclusive["recursion-parse"] += 1
